@@ -325,36 +325,52 @@ def validate_evidence(path):
         raise InternalError('evidence file does not validate: ' + rc.stderr[-1500:])
 
 
-def replay(prop, path, quiet=False):
+def replay(prop, path, quiet=False, mode='auto'):
+    """mode 'case': the recorded case alone; 'block': the cases of its block up to the violation; 'history': what the
+    driver and the worker had done before, then the block - each in the process this is called in, which should be a
+    fresh one ('auto' runs the case and, if the signature does not show, re-executes itself in the other modes)."""
     with open(path) as f:
         rec = json.load(f)
     fam = _family(prop, rec['family'])
-    outcome, vs, steps = safe_run_case(prop, fam, rec['case'])
-    if not quiet:
-        print('case: %s' % jdump(rec['case']))
-        print('outcome: %s' % _short(outcome, 3000))
     want = rec.get('signature')
-    if want and rec.get('block') is not None and want not in [s_ for s_, _ in vs]:
-        # not reproduced by the case alone: the result depends on state left behind by earlier cases of the same
-        # process.  Replay the recorded block, then the recorded history of blocks followed by the block.
-        tier = rec.get('tier', 'quick')
-        for plan in ([(rec['family'], rec['block'])], [tuple(h) for h in rec.get('history', [])] + [(rec['family'], rec['block'])]):
-            found = None
-            for famname, block in plan:
-                f2 = _family(prop, famname)
-                for case in f2.cases(block, tier):
-                    o2, v2, _ = safe_run_case(prop, f2, case)
-                    hits = [(s_, d_) for s_, d_ in v2 if s_ == want]
-                    if hits:
-                        found = (case, hits[0])
-                        break
-                if found:
+    tier = rec.get('tier', 'quick')
+    vs = []
+    if mode in ('auto', 'case'):
+        outcome, vs, steps = safe_run_case(prop, fam, rec['case'])
+        if not quiet:
+            print('case: %s' % jdump(rec['case']))
+            print('outcome: %s' % _short(outcome, 3000))
+        if mode == 'auto' and want and rec.get('block') is not None and want not in [s_ for s_, _ in vs]:
+            # not reproduced by the case alone: the result depends on state left behind in the process by earlier
+            # cases.  Every attempt needs a process of its own.
+            for m in ('block', 'history'):
+                rc = subprocess.run([sys.executable, '-m', 'mc.run', prop, '--replay', path, '--replay-mode', m] +
+                                    (['--quiet'] if quiet else []), cwd=VERIF, capture_output=True, text=True)
+                if rc.returncode == 1 and want in rc.stdout:
+                    sys.stdout.write(rc.stdout)
+                    return 1
+    else:
+        plan = [(rec['family'], rec['block'])]
+        if mode == 'history':
+            # the workers are forked from a driver that had enumerated the blocks of every family
+            for f_ in _load_check(prop).FAMILIES:
+                list(f_.blocks(tier))
+            plan = [tuple(h) for h in rec.get('history', [])] + plan
+        found = None
+        for famname, block in plan:
+            f2 = _family(prop, famname)
+            for case in f2.cases(block, tier):
+                o2, v2, _ = safe_run_case(prop, f2, case)
+                hits = [(s_, d_) for s_, d_ in v2 if s_ == want]
+                if hits:
+                    found = (case, hits[0])
                     break
             if found:
-                print('history-dependent: reproduced only after replaying %d block(s) of earlier cases in one process' % len(plan))
-                print('case: %s' % jdump(found[0]))
-                vs = [found[1]]
                 break
+        if found:
+            print('history-dependent: reproduced only after replaying %d block(s) of earlier cases in one process' % len(plan))
+            print('case: %s' % jdump(found[0]))
+            vs = [found[1]]
     hit = False
     for sig, detail in vs:
         print('violation signature: %s' % sig)
